@@ -46,9 +46,9 @@ impl Ctx {
 pub fn budget(thorough: bool) -> Budget {
     // sizes matter only through the length varint (1 octet up to 127, 2 octets up to 16383)
     if thorough {
-        Budget { max_size: 17000, nested_leaf: 4, product_cap: 2048, ext_out: true, large_sizes: &[] }
+        Budget { max_size: 70000, nested_leaf: 5, product_cap: 8192, ext_out: true, large_sizes: &[] }
     } else {
-        Budget { max_size: 300, nested_leaf: 3, product_cap: 256, ext_out: true, large_sizes: &[] }
+        Budget { max_size: 300, nested_leaf: 3, product_cap: 512, ext_out: true, large_sizes: &[] }
     }
 }
 
